@@ -68,6 +68,7 @@ type plan struct {
 	CrashAtAll int64  `json:"crash_at_all"` // k-th durable write counted from process start (second-level crash)
 	StopAt     int64  `json:"stop_at"`      // exit(0) once the block store reached this height
 	PerBlock   int    `json:"per_block"`
+	Filter     string `json:"filter"` // count only durable writes whose site contains this (crash_at)
 }
 
 // ---- child: run ---------------------------------------------------------------------
@@ -150,6 +151,9 @@ func childRun(args []string) {
 			if !armed && pl.CrashAt > 0 && h >= pl.ArmAt {
 				armed = true
 				logf("ARMED at height %d", h)
+				if pl.Filter != "" {
+					verifhook.SetSiteFilter(pl.Filter)
+				}
 				verifhook.SetCrashAt(pl.CrashAt)
 				verifhook.Arm()
 			}
@@ -486,9 +490,10 @@ func tail(s string, n int) string {
 }
 
 type point struct {
-	kind string
-	k    int64
-	k2   int64
+	kind   string
+	k      int64
+	k2     int64
+	filter string // count only writes of this site
 }
 
 func runPoint(run *lib.Run, base string, t *template, pt point, idx int) {
@@ -501,14 +506,14 @@ func runPoint(run *lib.Run, base string, t *template, pt point, idx int) {
 	ps := strconv.Itoa(p)
 	run.Eval()
 	witness := func(extra map[string]interface{}) map[string]interface{} {
-		m := map[string]interface{}{"kind": pt.kind, "crash_at_write": pt.k, "second_crash_at_write": pt.k2, "seed": lib.Seed()}
+		m := map[string]interface{}{"kind": pt.kind, "crash_at_write": pt.k, "counting_only_sites": pt.filter, "second_crash_at_write": pt.k2, "seed": lib.Seed()}
 		for k, v := range extra {
 			m[k] = v
 		}
 		return m
 	}
 	// 1. crash run
-	pl := plan{Kind: pt.kind, ArmAt: t.height, CrashAt: pt.k, StopAt: t.height + 6, PerBlock: 3}
+	pl := plan{Kind: pt.kind, ArmAt: t.height, CrashAt: pt.k, StopAt: t.height + 6, PerBlock: 3, Filter: pt.filter}
 	pj, _ := json.Marshal(pl)
 	ioutil.WriteFile(filepath.Join(dir, "plan1.json"), pj, 0644)
 	wlog := filepath.Join(dir, "writes1.log")
@@ -537,7 +542,10 @@ func runPoint(run *lib.Run, base string, t *template, pt point, idx int) {
 	}
 	run.Count("crash_points_reached", 1)
 	run.Count("crash_site_"+site, 1)
-	run.Nontrivial(fmt.Sprintf("%s/%d/%d", pt.kind, pt.k, pt.k2))
+	run.Nontrivial(fmt.Sprintf("%s/%s%d/%d", pt.kind, pt.filter, pt.k, pt.k2))
+	if pt.filter != "" {
+		run.Count("crash_points_by_site_ordinal", 1)
+	}
 	run.Distinct("crash_kind_site", pt.kind+"/"+site)
 	// 2. post-mortem
 	var pm dump
@@ -712,7 +720,7 @@ func main() {
 	}
 	_ = evm.AppName
 	run := lib.NewRun(prop, "fault_enumeration")
-	run.SetRule("the real single-validator node in child processes; for each workload kind {empty blocks, contract calls (counter contract), key-value txs, mixed} a template chain of 3 blocks, then for crash ordinals k (quick: 6 spread values per kind in 1..70; thorough: every k in 1..90) the node is killed by SIGKILL immediately before the k-th durable write (LevelDB put/batch of block store, state DB and application DBs, WAL line, signer-file step) after arming at the template height while it keeps committing blocks of that kind; for a subset a second crash before write k2 of the recovery run. Non-trivial = distinct (kind, k, k2) whose crash point was reached.")
+	run.SetRule("the real single-validator node in child processes; for each workload kind {empty blocks, contract calls (counter contract), key-value txs, mixed} a template chain of 3 blocks, then for crash ordinals k (quick: for the three kinds with transactions every k of one whole commit cycle, 34 consecutive ordinals from a seeded offset, and 5 spread values for empty blocks; thorough: every k in 1..90) the node is killed by SIGKILL immediately before the k-th durable write (LevelDB put/batch of block store, state DB and application DBs, WAL line, signer-file step) after arming at the template height while it keeps committing blocks of that kind; for a subset a second crash before write k2 of the recovery run. Non-trivial = distinct (kind, k, k2) whose crash point was reached.")
 	run.Assume("crash = process death (SIGKILL) immediately before a durable write issued by the process; power loss / un-fsynced data is not modelled", "block composition depends on real timers, so ordinal k lands on different writes in different runs: evidence lists the write sites actually hit", "single validator; multi-validator crash recovery is covered with a mock application in C07", "validator-set-change blocks and the raft engine are not covered here")
 	base := lib.Scratch(prop)
 	defer os.RemoveAll(base)
@@ -741,10 +749,32 @@ func main() {
 			}
 		} else {
 			rng := lib.Rand("c06", int64(ki))
-			for j := 0; j < 5; j++ {
-				pts = append(pts, point{kind: kind, k: int64(1 + j*14 + rng.Intn(14))})
+			if kind == "empty" {
+				for j := 0; j < 5; j++ {
+					pts = append(pts, point{kind: kind, k: int64(1 + j*14 + rng.Intn(14))})
+				}
+			} else {
+				// every ordinal of one whole commit cycle (a block's commit issues ~30 durable
+				// writes), starting at a seeded offset: each write of a commit is a crash point once
+				a := int64(1 + rng.Intn(20))
+				for k := a; k < a+34; k++ {
+					pts = append(pts, point{kind: kind, k: k})
+				}
 			}
 			pts = append(pts, point{kind: kind, k: int64(10 + rng.Intn(40)), k2: int64(1 + rng.Intn(20))})
+		}
+		if kind != "empty" {
+			// the database writes of a commit (block store, state, application marker, receipts,
+			// key-value history, tries), addressed by site and ordinal so that WAL traffic, whose
+			// volume depends on real timers, cannot shift them out of reach
+			for _, f := range []struct {
+				site string
+				n    int64
+			}{{"godb.SetSync", 6}, {"godb.BatchWrite", 2}, {"ethdb.BatchWrite", 4}} {
+				for k := int64(1); k <= f.n; k++ {
+					pts = append(pts, point{kind: kind, k: k, filter: f.site})
+				}
+			}
 		}
 	}
 	lib.Parallel(len(pts), 12, func(i int) { runPoint(run, base, tmpl[pts[i].kind], pts[i], i) })
